@@ -349,8 +349,26 @@ def h_c07_reader_iter(env, pattern, family="c07seq"):
     if not ok:
         return env.fail("c07.iter-obtain", "py:%s.read_x%d:in-order-call-rejected" % (cname, k), str(it)[:80])
     env.check("c07.iter-obtained-state-is-open", EQ(r._state, enc((k, True))), "py:%s.read_x%d:post-state-unrelated" % (cname, k))
-    ev = env.choice("event", 3)
-    if ev == 0:      # consume fully
+    ev = env.choice("event", 5)
+    if ev in (3, 4):  # the iterable is abandoned (closed) / the underlying iterable raises: the step is neither ended nor exhausted
+        if nitems == 0:
+            env.reach("c07.iter-partial-needs-an-item")
+            return
+        first = next(it)
+        if ev == 3:
+            it.close()
+            what = "abandoned"
+        else:
+            ok, e = env.attempt(it.throw, KeyError("underlying"))
+            env.check("c07.iter-underlying-error-propagates", AND(not ok, type(e).__name__ == "KeyError"), "py:%s._wrap_iterable:underlying-error-swallowed" % cname)
+            what = "failed"
+        env.check("c07.iter-%s-iterable-keeps-step-open" % what, AND(first is vals[k][0], EQ(r._state, enc((k, True)))), "py:%s._wrap_iterable:%s-iterable-completes-the-step" % (cname, what))
+        call = env.choice("call", n + 1)
+        del log[:]
+        ok, e = env.attempt(getattr(r, "read_x%d" % call) if call < n else r.close)
+        env.check("c07.iter-%s-iterable-blocks-other-calls" % what, AND(not ok, type(e).__name__ == "ProtocolError"),
+                  "py:%s.%s:accepted-after-iterable-%s" % (cname, "read_x%d" % call if call < n else "close", what))
+    elif ev == 0:      # consume fully
         got = list(it)
         env.check("c07.iter-items-passed-unchanged", AND(len(got) == nitems, all(a is b for a, b in zip(got, vals[k]))), "py:%s._wrap_iterable:items-differ" % cname)
         env.check("c07.iter-exhaustion-completes-the-step", EQ(r._state, enc(spec.exhaust((k, True)))), "py:%s._wrap_iterable:exhaustion-post-state-unrelated" % cname)
